@@ -24,12 +24,12 @@ MUTANTS = [
          new="        factor = int(np.round(factor))\n",
          why="refinement factor rounded to nearest: step exceeds the target only when frac(dt/target) < 0.5"),
     dict(id="c14-interp-decim-ceil", prop="C14", file=_F,
-         old="        factor = 1 / np.floor(1 / factor)\n",
-         new="        factor = 1 / np.ceil(1 / factor)\n",
+         old="        step = np.floor(1 / factor)\n        factor = 1 / step\n    t_int",
+         new="        step = np.ceil(1 / factor)\n        factor = 1 / step\n    t_int",
          why="decimation factor rounded up: new step exceeds the target for every non-commensurate pair"),
     dict(id="c14-interp-decim-no-integer", prop="C14", file=_F,
-         old="        factor = 1 / np.floor(1 / factor)\n    t_int",
-         new="        pass\n    t_int",
+         old="        step = np.floor(1 / factor)\n        factor = 1 / step\n    t_int",
+         new="        step = 1 / factor\n    t_int",
          why="decimation straight to the target step: ratio to the original step is no longer the reciprocal of an integer, "
              "output no longer a subsequence"),
     dict(id="c14-interp-grid-off-by-one", prop="C14", file=_F,
@@ -60,8 +60,10 @@ MUTANTS = [
     # ---- interp_to_approx_dt
     dict(id="c14-obj-drops-even", prop="C14", file=_F,
          old="asig.values, asig.dt, target_dt=target_dt, even=even)",
-         new="asig.values, asig.dt, target_dt=target_dt)",
-         why="object variant ignores its even argument"),
+         new="asig.values, asig.dt, target_dt=target_dt)", expect="survive",
+         why="object variant ignores its even argument (always even).  Was seen only through the bitwise object == array comparison, which "
+             "the audit (false-alarm item 4.3) removed: an even length that was not requested breaks no sentence of the statement (all "
+             "originals reappear, range, step and duration hold).  Kept as a false-alarm probe"),
     dict(id="c14-obj-keeps-old-dt", prop="C14", file=_F,
          old="    return eqsig.AccSignal(acc_interp, dt_interp)\n",
          new="    return eqsig.AccSignal(acc_interp, asig.dt)\n",
@@ -76,9 +78,9 @@ MUTANTS = [
          new=_RS_HEAD.replace("step = np.floor(1 / factor)", "step = np.ceil(1 / factor)"),
          why="decimation factor rounded up in the Fourier variant"),
     dict(id="c14-resample-even-ignored", prop="C14", file=_F,
-         old="(step = 49)\n    if even:\n",
-         new="(step = 49)\n    if False:\n",
-         why="even flag ignored by the Fourier variant"),
+         old="    if even:\n        new_npts = 2 * int(new_npts / 2)\n    else:\n",
+         new="    if False:\n        new_npts = 2 * int(new_npts / 2)\n    else:\n",
+         why="even flag ignored by the Fourier variant (evenness is read as applying to both resamplers, see ASSUMPTIONS)"),
     dict(id="c14-resample-reports-target", prop="C14", file=_F,
          old="    return eqsig.AccSignal(acc_interp, asig.dt / factor)\n",
          new="    return eqsig.AccSignal(acc_interp, target_dt)\n",
@@ -148,11 +150,11 @@ MUTANTS += [
               "        acc_interp = np.interp(t_db, t_int, values)\n"),
          why="window: for records longer than 70 000 samples the output is filled in whole blocks of 4096; the last partial block stays zero"),
     dict(id="c14-win-interp-refine-budget", prop="C14", file=_F,
-         old="        factor = int(np.ceil(factor))\n    else:\n        factor = 1 / np.floor(1 / factor)\n",
+         old="        factor = int(np.ceil(factor))\n    else:\n        step = np.floor(1 / factor)\n        factor = 1 / step\n    t_int",
          new=("        factor = int(np.ceil(factor))\n"
               "        if factor * len(values) > 1500000:  # budget on the size of the refined record\n"
               "            factor = max(1, int(1500000 // len(values)))\n"
-              "    else:\n        factor = 1 / np.floor(1 / factor)\n"),
+              "    else:\n        step = np.floor(1 / factor)\n        factor = 1 / step\n    t_int"),
          why="window on a product: the refinement factor is capped when factor*npts exceeds 1.5e6 samples, the returned step then "
              "exceeds the target"),
     dict(id="c14-win-interp-grid-cache-no-even", prop="C14", file=_F, old=_IA_GRID,
@@ -168,11 +170,13 @@ MUTANTS += [
               "    acc_interp = np.interp(t_db, t_int, values)\n"),
          why="stale cache kept only for mid-size records (5 000..150 000 samples): the key forgets `even`, so a second call with the "
              "other value of `even` gets the grid (and length) of the first"),
-    dict(id="c14-win-obj-even-forced", prop="C14", file=_F, old=_OBJ_CALL,
+    dict(id="c14-win-obj-even-dropped", prop="C14", file=_F, old=_OBJ_CALL,
          new=("    if asig.npts > 7000 and target_dt < asig.dt:\n"
-              "        even = True  # long refined records go to the FFT afterwards\n" + _OBJ_CALL),
-         why="window + option interaction: the object variant forces an even length for records longer than 7000 samples that are "
-             "refined; differs from the array level only for even=False with an odd product k*npts"),
+              "        even = False  # long refined records: keep every sample\n" + _OBJ_CALL),
+         why="window + option interaction: the object variant ignores even=True for records longer than 7000 samples that are "
+             "refined; visible only for an odd product k*npts.  (Until the audit this mutant forced even=True instead and was seen "
+             "through the bitwise object == array comparison, a demand the statement does not make; each variant is now judged by the "
+             "oracle on its own output)"),
     dict(id="c14-win-resample-halves", prop="C14", file=_F, old=_RS_CALL,
          new=("    if asig.npts > 40000 and asig.npts % 2 == 0 and new_npts % 2 == 0:\n"
               "        h = asig.npts // 2  # long records: two transforms of half the length\n"
@@ -234,4 +238,69 @@ MUTANTS += [
          why="long records are decimated by taking every k-th sample: for a signal band-limited below the new Nyquist frequency "
              "these ARE its values at the instants i*new_dt, so the statement holds (it even holds where C14-KF1 is open): no alarm "
              "expected"),
+]
+
+# ---------------------------------------------------------------------------
+# audit of C14 (notes/audit/C14.md): the confirmed survivors M2..M5, M7, the revert of the repair the audit led to, and two probes
+# for changes the statement is silent about
+
+_IA_CEIL = "        factor = int(np.ceil(factor))\n    else:\n        step = np.floor(1 / factor)\n        factor = 1 / step\n    t_int"
+
+MUTANTS += [
+    dict(id="c14-revert-interp-decimated-length", prop="C14", file=_F,
+         old="    if factor < 1:\n        new_npts = len(values) / step  # not factor * npts: fl(1 / step) * npts can fall just below a whole number (step = 49)\n",
+         new="",
+         why="reverts fix ea0e54c: length fl(1/k)*npts falls just below npts/k for k = 49, 98, 103 ...; with even=True exactly two new "
+             "steps are lost"),
+    dict(id="c14-audit-m2-refine-stops-early", prop="C14", file=_F,
+         old="    new_npts = factor * len(values)\n",
+         new="    new_npts = factor * (len(values) - 1) if factor > 1 else factor * len(values)\n",
+         why="audit M2: the refined grid stops one original interval early, the last original sample never reappears"),
+    dict(id="c14-audit-m3-even-drops-pair", prop="C14", file=_F,
+         old="        new_npts = 2 * int(new_npts / 2)\n    t_db",
+         new="        new_npts = 2 * (int(np.ceil(new_npts / 2)) - 1)\n    t_db",
+         why="audit M3: the even truncation drops a pair when the product is already an even whole number: exactly two steps lost"),
+    dict(id="c14-audit-m4-interp-factor-capped", prop="C14", file=_F, old=_IA_CEIL,
+         new=_IA_CEIL.replace("int(np.ceil(factor))", "min(int(np.ceil(factor)), 100)"),
+         why="audit M4: refinement factor capped at 100 (interpolation): the step exceeds the target for ratios beyond 100"),
+    dict(id="c14-audit-m4-resample-factor-capped", prop="C14", file=_F, old=_RS_HEAD,
+         new=_RS_HEAD.replace("int(np.ceil(factor))", "min(int(np.ceil(factor)), 32)"),
+         why="audit M4: refinement factor capped at 32 (Fourier variant)"),
+    dict(id="c14-audit-m4-target-floor", prop="C14", file=_F,
+         old="    factor = dt / target_dt\n    if factor == 1:\n        pass\n",
+         new="    target_dt = max(target_dt, 1e-5)\n    factor = dt / target_dt\n    if factor == 1:\n        pass\n",
+         why="audit M4 (same class): target steps below 1e-5 are silently raised to 1e-5"),
+    dict(id="c14-audit-m5-interp-ceil-tolerant", prop="C14", file=_F, old=_IA_CEIL,
+         new=_IA_CEIL.replace("int(np.ceil(factor))", "int(np.ceil(factor - 1e-9))"),
+         why="audit M5: 'tolerant' rounding of the refinement factor: a target a relative 1e-10 below dt/k gets the step dt/k"),
+    dict(id="c14-audit-m5-interp-floor-tolerant", prop="C14", file=_F, old=_IA_CEIL,
+         new=_IA_CEIL.replace("step = np.floor(1 / factor)", "step = np.floor(1 / factor + 1e-9)"),
+         why="audit M5: 'tolerant' rounding of the decimation factor: a target a relative 1e-10 below dt*k gets the step dt*k"),
+    dict(id="c14-audit-m5-resample-tolerant", prop="C14", file=_F, old=_RS_HEAD,
+         new=_RS_HEAD.replace("int(np.ceil(factor))", "int(np.ceil(factor - 1e-9))").replace(
+             "step = np.floor(1 / factor)", "step = np.floor(1 / factor + 1e-9)"),
+         why="audit M5: the same tolerant rounding in the Fourier variant"),
+    dict(id="c14-audit-m7-float32-grid-huge-output", prop="C14", file=_F, old=_IA_GRID, expect="survive",
+         new=("    t_db = np.arange(new_npts) / factor\n"
+              "    if new_npts > 4_000_000:\n"
+              "        t_db = t_db.astype(np.float32)\n"
+              "    acc_interp = np.interp(t_db, t_int, values)\n"),
+         why="audit M7 as written: the grid of outputs longer than 4 000 000 samples is kept in single precision.  The case IS generated "
+             "(output length just above the mined literal), but the instants of the original samples are whole numbers below 2^24 and "
+             "exact in single precision, so every retained sample is still bitwise there; only samples BETWEEN originals move, inside "
+             "the range: the statement is silent (as for M6) until records exceed 16.7e6 samples.  False-alarm probe"),
+    dict(id="c14-audit-m7b-float32-values-huge-output", prop="C14", file=_F, old=_IA_GRID,
+         new=("    t_db = np.arange(new_npts) / factor\n"
+              "    if new_npts > 4_000_000:\n"
+              "        values = np.asarray(values, dtype=np.float32)\n"
+              "    acc_interp = np.interp(t_db, t_int, values)\n"),
+         why="audit M7, statement-breaking variant: for outputs longer than 4 000 000 samples the record is interpolated from a "
+             "single-precision copy (retained samples no longer unchanged); beyond the ladder, reached through the literal mined from "
+             "the source (a refinement whose output length lies just above it)"),
+    dict(id="c14-audit-m6-zero-order-hold", prop="C14", file=_F, old=_IA_GRID, expect="survive",
+         new=("    t_db = np.arange(new_npts) / factor\n"
+              "    acc_interp = np.asarray(values, dtype=float)[np.minimum(np.floor(t_db + 1e-9).astype(int), len(values) - 1)]\n"),
+         why="audit M6 (informational): zero-order hold instead of linear interpolation.  Every claim of the statement still holds "
+             "(retained samples, range, step, length): the statement is silent on how the samples between two originals are filled, so "
+             "the check must stay quiet"),
 ]
